@@ -182,7 +182,12 @@ impl Doc {
 // ------------------------------------------------------------------------------------------
 // decoders
 
-pub const NAME_POOL: &[&str] = &["A", "B", "Cc", "Source", "Package", "Depends", "X-y", "a#b", "X/y", "!n", "Z9", "Description"];
+// the pool holds names that are related to each other: prefixes (Package / Package-List, Depends / Pre-Depends-like suffix
+// relations), dpkg's user-defined prefixes (X-, XS-, XB-, XC-, XBS-) in front of another name, and letter-case variants
+pub const NAME_POOL: &[&str] = &[
+    "A", "B", "Cc", "Source", "Package", "Depends", "X-y", "a#b", "X/y", "!n", "Z9", "Description", "Package-List", "Build-Depends", "Build-Depends-Indep", "Pre-Depends", "XS-Package", "XB-Depends", "XBS-A", "X-A",
+    "XC-Package", "package", "DEPENDS", "Vcs-Git", "XS-Vcs-Git",
+];
 
 const NAME_FIRST: &str = "ABCXYZabcxyz019!\"$%&'()*+,./;<=>?@[\\]^_`{|}~";
 const NAME_REST: &str = "ABCXYZabcxyz019!\"$%&'()*+,./;<=>?@[\\]^_`{|}~-#";
@@ -302,7 +307,16 @@ pub fn gen_field(t: &mut Tape, o: &DocOpts) -> Field {
     let mut lines = vec![gen_line(t, false, true, o.unicode)];
     let mut indents = vec![];
     while t.more(lines.len(), 1, o.max_lines, 1, 3) {
-        indents.push(if o.layout { gen_ws(t, 1, 6) } else { " ".to_string() });
+        let wide = o.layout && t.chance(1, 400);
+        indents.push(if wide && !crate::LIGHT_MODE.load(std::sync::atomic::Ordering::Relaxed) {
+            // a very wide indentation, around the 8- and 16-bit boundaries
+            let n = *t.pick(&[255usize, 256, 257, 65535, 65536, 65537]);
+            if t.flag() { " ".repeat(n) } else { " \t".repeat(n / 2) + &" ".repeat(n % 2) }
+        } else if o.layout {
+            gen_ws(t, 1, 6)
+        } else {
+            " ".to_string()
+        });
         lines.push(gen_line(t, true, false, o.unicode));
     }
     Field { name, lines, colon_ws, indents, comments_before }
